@@ -5,9 +5,9 @@
     and disk stores, which is also what the harness observes), so for them the model is
     the plain machine.
 
-    Observation per configuration: the per-request observations of CorrEng.run_obs
-    (answer, stack depth, holders' content) and, with trace on, FullTracer.trees and the
-    flat trace (keys, dependencies, values) after the last request. *)
+    Observation per configuration: per request the answer and the stack depth; after the
+    last request the holders' content and, with trace on, FullTracer.trees, the flat trace
+    (keys, dependencies, values) and whether the cursor is back to None. *)
 From Coq Require Import ZArith List Bool String.
 From Verif Require Import Base Obs Cal Tables Period Np Group Param Engine EngineTrace CorrEng.
 Import ListNotations.
@@ -26,25 +26,38 @@ Definition oflat (e : flat_entry) : obs :=
   let '(k, deps, a) := e in
   OL [olist OZ (key_code k); OL (map (fun d => olist OZ (key_code d)) deps); oopt (olist OZ) a].
 
-(** per request: answer, stack depth, is the tracer's cursor back to None, cache *)
-Fixpoint run_obs_t (fuel : nat) (sy : sys) (pp : popu) (s : st * tracer) (rs : list request)
-  : list obs * tracer :=
+(** per request: answer and stack depth; the holders' content once, after the last request
+    (CorrEng.run_obs, used by C01, compares it after every request of the plain
+    configuration; here it would be most of the text Coq has to read) *)
+Fixpoint run_obs_p (fuel : nat) (sy : sys) (pp : popu) (s : st) (rs : list request) : list obs * st :=
   match rs with
-  | [] => ([], snd s)
+  | [] => ([], s)
+  | r :: rest =>
+      let '(s1, a) := step fuel sy pp s r in
+      let '(l, s2) := run_obs_p fuel (sys_after sy r) pp s1 rest in
+      (OL [oanswer a; OZ (Z.of_nat (List.length (stack s1)))] :: l, s2)
+  end.
+
+Fixpoint run_obs_t (fuel : nat) (sy : sys) (pp : popu) (s : st * tracer) (rs : list request)
+  : list obs * (st * tracer) :=
+  match rs with
+  | [] => ([], s)
   | r :: rest =>
       let '(s1, a) := step_t fuel sy pp s r in
-      let '(l, tr) := run_obs_t fuel (sys_after sy r) pp s1 rest in
-      (OL [oanswer a; OZ (Z.of_nat (List.length (stack (fst s1)))); ocache (cache (fst s1))] :: l, tr)
+      let '(l, s2) := run_obs_t fuel (sys_after sy r) pp s1 rest in
+      (OL [oanswer a; OZ (Z.of_nat (List.length (stack (fst s1))))] :: l, s2)
   end.
 
 Definition run_cfg (sy : sys) (pp : popu) (rs : list request) (cfg : bool * list bool) : obs :=
   let sy' := with_nostore (snd cfg) sy in
   if fst cfg then
-    let '(l, tr) := run_obs_t (enough_fuel sy') sy' pp (init [], tr_init) rs in
-    OL [OL l;
+    let '(l, (s, tr)) := run_obs_t (enough_fuel sy') sy' pp (init [], tr_init) rs in
+    OL [OL l; ocache (cache s);
         OL [OL (map onode (trees tr)); OL (map oflat (flat_trace (trees tr)));
             OZ (Z.of_nat (List.length (opened tr)))]]
-  else OL [OL (run_obs (enough_fuel sy') sy' pp (init []) rs); ONone].
+  else
+    let '(l, s) := run_obs_p (enough_fuel sy') sy' pp (init []) rs in
+    OL [OL l; ocache (cache s); ONone].
 
 Definition run (c : case) : obs :=
   match c with
